@@ -52,3 +52,58 @@ var _ = digest.SpecHashSlot // spec functions used by the contracts below
 //@   ensures wf: rlWF(result)
 //@   ensures empty: forall s uint16 :: !rlIn(result, s)
 //@   ensures fresh: fresh(result)
+
+// ---- key / slot / db / command filters -------------------------------------------------
+
+// SpecTriePrefix / SpecTrieWord: abstract views of a Trie ("some inserted non-empty word is
+// a byte prefix of w" / "w was inserted"). They are uninterpreted: the contracts of
+// IsPrefixMatch / Search below are ASSUMED (trusted), the trie itself is not verified here.
+func SpecTriePrefix(t *Trie, w string) bool { panic("abstract spec function") }
+func SpecTrieWord(t *Trie, w string) bool   { panic("abstract spec function") }
+
+//@ spec SpecTriePrefix abstract
+//@ spec SpecTrieWord abstract
+
+//@ func Trie.IsPrefixMatch
+//@   trusted abstract view of the trie; the pointer/map structure of Trie is outside the verified subset
+//@   ensures view: result <==> SpecTriePrefix(t, word)
+
+//@ func Trie.Search
+//@   trusted abstract view of the trie; the pointer/map structure of Trie is outside the verified subset
+//@   ensures view: result <==> SpecTrieWord(t, word)
+
+//@ pred slotRejected(f, key): (f.slotKeyBlackList != nil && rlIn(f.slotKeyBlackList, digest.SpecHashSlot(key))) || (f.slotKeyWhiteList != nil && !rlIn(f.slotKeyWhiteList, digest.SpecHashSlot(key)))
+//@ pred keyRejected(f, key): (f.prefixKeyBlackTrie != nil && SpecTriePrefix(f.prefixKeyBlackTrie, key)) || (f.prefixKeyWhiteTrie != nil && !SpecTriePrefix(f.prefixKeyWhiteTrie, key))
+//@ pred filterWF(f): f != nil && (f.slotKeyBlackList != nil ==> rlWF(f.slotKeyBlackList)) && (f.slotKeyWhiteList != nil ==> rlWF(f.slotKeyWhiteList))
+
+//@ func RedisKeyFilter.FilterSlot
+//@   arith int
+//@   properties C10
+//@   nopanic
+//@   opaque SpecHashSlot
+//@   requires wf: filterWF(f)
+//@   ensures exact: result <==> slotRejected(f, key)
+
+//@ func RedisKeyFilter.FilterKey
+//@   arith int
+//@   properties C10
+//@   nopanic
+//@   requires nonnil: f != nil
+//@   ensures exact: result <==> keyRejected(f, key)
+
+//@ func RedisKeyFilter.FilterCmd
+//@   arith int
+//@   properties C10
+//@   nopanic
+//@   requires nonnil: f != nil
+//@   ensures exact: result <==> ((f.cmdBlackTrie != nil && SpecTrieWord(f.cmdBlackTrie, cmd)) || (f.cmdWhiteTrie != nil && !SpecTrieWord(f.cmdWhiteTrie, cmd)))
+
+//@ func RedisKeyFilter.FilterDb
+//@   arith int
+//@   properties C10
+//@   nopanic
+//@   requires nonnil: f != nil
+//@   ensures exact: result <==> (db != 0 - 1 && (exists j int :: 0 <= j && j < len(f.dbBlackList) && f.dbBlackList[j] == db))
+//@   loop 1:
+//@     invariant idx: 0 - 1 <= rangeindex && rangeindex < len(f.dbBlackList)
+//@     invariant none_before: forall j int :: 0 <= j && j <= rangeindex ==> f.dbBlackList[j] != db
